@@ -487,9 +487,10 @@ class ImageBatch(DataTensor):
         count_include_pad: bool = True,
     ) -> TImageBatch:
         r"""Average pooling of image data."""
+        # Sizes are given in the order (X, ...) as for Grid.avg_pool(), tensor functions expect (..., X)
         data = U.avg_pool(
             self,
-            kernel_size,
+            kernel_size if isinstance(kernel_size, int) else tuple(reversed(kernel_size)),
             stride=stride,
             padding=padding,
             ceil_mode=ceil_mode,
